@@ -42,6 +42,37 @@ def directed(rng: random.Random, tier: str):
             now += 6
             hs.round([], [1, 2], now)                          # {302: 2}
             out.append(hs)
+    # nobody listens to the traffic itself: the only interested party hears the statistics alone (an ordinary module,
+    # not a logger).  Types with no subscriber at all, with one subscriber, many distinct types; with and without -T
+    for timing in (True, False):
+        for ntypes in (1, 64, 70):
+            hs = C.History(loglevel=60, timing=timing, tag="statistics-only-listener")
+            for _ in range(3):
+                hs.round([], [], 0, accept=True)
+            w = [1, 2, 3]
+            hs.round([(1, hs.connect_v2(mod_id=10))], w, 0)
+            hs.round([(1, hs.sub("sub", C.MT["MESSAGE_TRAFFIC"]))], w, 0)
+            hs.round([(1, hs.sub("sub", C.MT["TIMING_MESSAGE"]))], w, 0)
+            hs.round([(2, hs.connect_v1(src_mod=11)), (3, hs.connect_v1(src_mod=12))], w, 0)
+            hs.round([(3, hs.sub("sub", 5001))], w, 0)
+            exp = {}
+            now = 0
+            def pub(t, now):
+                hs.round([(2, hs.publish(t, b"12345678", src_mod=11))], w, now)
+                exp[t] = exp.get(t, 0) + 1
+            for interval in range(3):
+                for _ in range(7):
+                    pub(5000, now)                                     # nobody is subscribed to 5000
+                for _ in range(3):
+                    pub(5001, now)                                     # conn 3 is
+                for t in range(300, 300 + ntypes):
+                    pub(t, now)
+                now += 6
+                pub(9000 + interval, now)                              # a round with fresh writability: the report goes out
+            now += 6
+            pub(9100, now)
+            hs.plain_stats = dict(expected=exp)
+            out.append(hs)
     return out
 
 
